@@ -133,8 +133,16 @@ class Ctx:
         self.rule("SELFTEST", "each registered mutant of this property (tools/make_mutants.py: a small edit that still compiles) makes the "
                               "check fire with the expected key on a scratch worktree of /repo")
         p = subprocess.run([sys.executable, os.path.join(VERIF, "tools", "selftest.py")] + names, capture_output=True, text=True)
+        stdout = p.stdout
+        for _retry in range(2):
+            # a run that produced no verdict for a mutant (scratch worktree could not be made, the helper died) is not a verdict: run those again
+            todo = [nm for nm in names if not any(l.startswith(nm + " ") and (" fires" in l or " MISSED" in l) for l in stdout.splitlines())]
+            if not todo:
+                break
+            p2 = subprocess.run([sys.executable, os.path.join(VERIF, "tools", "selftest.py"), "-j", "2"] + todo, capture_output=True, text=True)
+            stdout = "\n".join(l for l in stdout.splitlines() if not any(l.startswith(nm + " ") for nm in todo)) + "\n" + p2.stdout
         for nm in names:
-            line = [l for l in p.stdout.splitlines() if l.startswith(nm + " ")]
+            line = [l for l in stdout.splitlines() if l.startswith(nm + " ")]
             if line and " fires" in line[0]:
                 self.ok("SELFTEST", "mutant:" + nm, "fires", nontrivial=True)
             else:
